@@ -658,7 +658,7 @@ fn rule_of(prop: Prop) -> &'static str {
 fn components() -> Value {
     json!({
         "real_code": ["chess-bitboard", "chess-lookup (tables, book decoder)", "chess-movegen", "chess-engine", "chess-api", "chess-bot (shipped source built as cdylib, loaded through abi_stable)"],
-        "stubs": ["chess-cli driver loops (re-enacted)", "chess-wasm entry points (same calls made directly)", "DurationTimeout (replaced through the Timeout trait by a counting clock)", "thread_rng (the tape)", "rayon (absent)"]
+        "stubs": ["chess-cli driver loops (re-enacted)", "chess-wasm entry points (same calls made directly)", "DurationTimeout (replaced through the Timeout trait by a counting clock, except at its two deterministic corners - a zero / one-nanosecond duration and a duration whose deadline cannot be represented - where the real type runs)", "thread_rng (the tape)", "rayon (absent)"]
     })
 }
 
